@@ -505,6 +505,100 @@ def enum_line_ends(ctx):
                     ctx.event("enum_line_ends_checked")
 
 
+def shared_names(ctx, rng, n):
+    """Declarations that do not refer to each other but happen to use the same names where names are local: a
+    constant (or an anonymous enum's member) named like a member of a named enum whose later members refer to it, and
+    nested structures carrying the same tag inside different structures (as arrays of the same length, pointers,
+    plain members).  Every block gives the types it gives alone, in every order and split into load() calls."""
+    import itertools
+
+    ints = ["uint8", "uint16", "uint32", "int16", "uint64", "int24"]
+    for it in range(n):
+        pre = rng.choice(["M", "MODE", "k"]) + "_"
+        a, b_, c_, d_ = (pre + x for x in ("FIRST", "SECOND", "DEFAULT", "NEXT"))
+        cval, eval_ = rng.sample(range(1, 40), 2)
+        kind = rng.choice(["define", "anon-enum", "define-hex"])
+        const_block = {"define": f"#define {a} {cval}\n", "anon-enum": f"enum {{ {a} = {cval} }};\n",
+                       "define-hex": f"#define {a} {hex(cval)}\n"}[kind]
+        ref_form = rng.choice([a, a, f"{a} + 1", f"({a})", f"{a}|0"])
+        ebase = rng.choice(["uint8", "uint16", "uint32"])
+        ekw = rng.choice(["enum", "enum", "flag"])
+        enum_block = (f"{ekw} mode : {ebase} {{\n    {a} = {eval_},\n    {b_},\n    {c_} = {ref_form},\n    {d_}\n}};\n"
+                      f"struct rec {{ mode m; uint8 pad; }};\n")
+        tag = rng.choice(["entry", "item", "hdr"])
+        cnt = rng.randint(1, 3)
+        shape = rng.choice(["array", "array", "plain", "pointer", "array2"])
+
+        def nested(outer, lead):
+            fields = "".join(f" {rng.choice(ints)} {nm};" for nm in rng.sample(["id", "flags", "slot", "v", "w"], rng.randint(1, 3)))
+            if rng.random() < 0.4:
+                fields += f" char tag[{rng.randint(1, 3)}];"
+            decl = {"array": f"entries[{cnt}]", "plain": "one", "pointer": "*ptr", "array2": f"grid[{cnt}][2]"}[shape]
+            return f"struct {outer} {{\n    {lead} lead;\n    struct {tag} {{{fields} }} {decl};\n}};\n"
+
+        rec_block, idx_block = nested("record", "uint8"), nested("index", rng.choice(["uint8", "uint16"]))
+        user_block = f"struct user {{ uint8 d[{a}]; uint8 e; }};\n"      # refers to the constant: comes after it
+        blocks = {"const": const_block, "enum": enum_block, "record": rec_block, "index": idx_block, "user": user_block}
+        owned = {"const": [], "enum": ["mode", "rec"], "record": ["record"], "index": ["index"], "user": ["user"]}
+        data = bytes(rng.randrange(1, 256) for _ in range(64))
+
+        def facts(cs, names):
+            out = {}
+            for nm in names:
+                T = cs.resolve(nm)
+                f = [type_sig(T)]
+                if hasattr(T, "__fields__"):
+                    try:
+                        o = T(data)
+                        f += [lib.stable_repr(o), o.dumps()]
+                    except Exception as e:  # noqa: BLE001
+                        f.append(type(e).__name__)
+                out[nm] = repr(f)
+            return out
+
+        solo = {}
+        try:
+            for k, text in blocks.items():
+                cs = lib.cstruct()
+                cs.load((const_block if k == "user" else "") + text)
+                solo[k] = facts(cs, owned[k])
+            solo_const = lib.stable_repr(lib.cstruct().load(const_block).consts[a])
+        except Exception as e:  # noqa: BLE001
+            ctx.violation("shared-names", f"block-alone-rejected:{type(e).__name__}",
+                          {"blocks": blocks, "error": lib.exc_sig(e), "workload": "shared-names"})
+            continue
+        keys = list(blocks)
+        orders = [o for o in itertools.permutations(keys) if o.index("const") < o.index("user")]
+        for order in rng.sample(orders, 6 if not ctx.thorough else 20):
+            cuts = sorted(rng.sample(range(1, len(order)), rng.randint(0, 3)))
+            chunks, last = [], 0
+            for c in cuts + [len(order)]:
+                chunks.append("".join(blocks[k] for k in order[last:c]))
+                last = c
+            ctx.evaluation(("shared-names", it, order, tuple(cuts)))
+            ctx.cell("shared-local-names:" + ("split" if cuts else "one-load"))
+            det = {"variant": chunks, "order": order, "workload": "shared-names"}
+            try:
+                cs = lib.cstruct()
+                for ch in chunks:
+                    cs.load(ch)
+                for k in keys:
+                    got = facts(cs, owned[k])
+                    if got != solo[k]:
+                        bad = next(nm for nm in owned[k] if got[nm] != solo[k][nm])
+                        ctx.violation("shared-names", "declaration-changes-an-unrelated-one-that-uses-the-same-local-name",
+                                      dict(det, block=k, type=bad, got=got[bad][:500], want=solo[k][bad][:500]))
+                        break
+                else:
+                    if lib.stable_repr(cs.consts[a]) != solo_const:
+                        ctx.violation("shared-names", "constant-changed-by-an-enum-member-of-the-same-name",
+                                      dict(det, got=repr(cs.consts[a]), want=solo_const))
+                    else:
+                        ctx.event("equivalent:shared-names")
+            except Exception as e:  # noqa: BLE001
+                ctx.violation("shared-names", f"combination-rejected:{type(e).__name__}", dict(det, error=lib.exc_sig(e)))
+
+
 def string_constants(ctx):
     """A quoted #define value is a string whatever it spells and wherever it stands relative to other constants."""
     import itertools
@@ -536,6 +630,8 @@ def run(ctx):
         enum_line_ends(ctx)
     if ctx.shard == 1:
         keyword_like_fields(ctx)
+    if ctx.shard % 4 == 2:
+        shared_names(ctx, ctx.rng("shared-names"), 8 if not ctx.thorough else 60)
     for i in range(N_CASES[ctx.tier]):
         if ctx.out_of_time():
             break
@@ -555,6 +651,7 @@ def replay(ctx, detail):
         aliases(ctx, ctx.rng("aliases"))
         keyword_like_fields(ctx)
         string_constants(ctx)
+        shared_names(ctx, ctx.rng("shared-names"), 8)
         return
     try:
         cs = lib.cstruct(endian=cfgd["endian"])
